@@ -156,7 +156,7 @@ def compare_residual(ctx, run, S, cfg, impl_form, spec_lin, what, key, pred='tam
         num = (fi - fs).num
         S.sync_terms(run.T)
         if run.T.cval(num) == 0:
-            ctx.D.record('valid-eq', what, 'unsat', 0.0, 'unsat')
+            ctx.D.record('syntactically-identical', what, 'unsat', 0.0, 'unsat')
             continue
         n_nontrivial += 1
         ctx.solve(S, 'valid-eq', '%s coefficient[%s]' % (what, run.basis_name(b) if b is not None else 'missing-generator'),
